@@ -16,7 +16,7 @@ From Coq Require Import ZArith NArith Bool List.
 From V Require Import Base.GoInt gen.Windows gen.Policy gen.Races gen.Locks Temporal.WindowModel
      Submission.SubmitModel Submission.SubmitStateProofs Submission.SubmitLive
      Submission.SubmitEnoughState Submission.SubmitEnough Submission.PolicyProofs
-     Submission.LockLib Submission.SubmitProofs.
+     Submission.LockLib Submission.SubmitProofs Submission.WeightModel Submission.WeightProofs.
 Import ListNotations.
 Open Scope Z_scope.
 
@@ -142,6 +142,22 @@ Theorem guarded_fields_no_adjacent_race : forall tr hs',
 Proof. exact (L_race_free guarded_fields_race_free). Qed.
 Print Assumptions guarded_fields_no_adjacent_race.
 
+(* the weights of a policy group decide which logs its race submits to (the session: the logs
+   with positive weight).  A weight update that is refused - bulk SetLogWeights or single
+   SetLogWeight, for a negative weight, a foreign log or too few positive weights to reach
+   MinInclusions - leaves the group, and therefore the session of every later submission, exactly
+   as it was ... *)
+Theorem refused_weight_update_changes_nothing : forall g c,
+  snd (wapply g c) = true -> fst (wapply g c) = g /\ group_of_w (fst (wapply g c)) = group_of_w g.
+Proof. exact (fun g c H => conj (L_refused_unchanged g c H) (L_refused_session_unchanged g c H)). Qed.
+Print Assumptions refused_weight_update_changes_nothing.
+
+(* ... so after ANY history of accepted and refused updates the group is the one the accepted
+   updates alone produce *)
+Theorem weight_history_is_its_accepted_calls : forall cs g, whistory g cs = whistory g (accepted_calls g cs).
+Proof. exact L_history_accepted_only. Qed.
+Print Assumptions weight_history_is_its_accepted_calls.
+
 (* ---- non-vacuity ---- *)
 (* a Chrome configuration over a five-log list, 20-month certificate: groups exist, enough
    logs answer, an execution returns success with three SCTs *)
@@ -165,4 +181,14 @@ Proof. vm_compute. repeat split. Qed.
 Example thresholds : map chrome_inc_count [14; 15; 27; 28; 39; 40] = [2; 3; 3; 4; 4; 5]
                   /\ map apple_inc_count [14; 15; 27; 28; 39; 40] = [2; 3; 3; 4; 4; 5]
                   /\ months_of (2024, 1, 31) (2025, 4, 30) = 14 /\ months_of (2024, 1, 30) (2025, 4, 30) = 15.
+Proof. vm_compute. repeat split. Qed.
+
+(* weights: a base group of three logs that needs three SCTs; concentrating the traffic on one
+   log is refused and changes nothing, halving one weight is accepted, zeroing it is refused *)
+Example weight_updates :
+  let g := mkWG 0 [1; 2; 3]%N 3 true [(1%N, 4); (2%N, 4); (3%N, 4)] in
+  (wapply g (WCAll [(1%N, 20)]) = (g, true)) /\
+  (positive_logs (whistory g [WCAll [(1%N, 20)]; WCOne 2%N 2; WCOne 3%N 0; WCAll [(1%N, 8); (2%N, 1); (3%N, 1); (9%N, 4)]]) = [1; 2; 3]%N) /\
+  (accepted_calls g [WCAll [(1%N, 20)]; WCOne 2%N 2; WCOne 3%N 0] = [WCOne 2%N 2]) /\
+  (wg_w (whistory g [WCAll [(1%N, 20)]; WCOne 2%N 2; WCOne 3%N 0]) = [(1%N, 4); (2%N, 2); (3%N, 4)]).
 Proof. vm_compute. repeat split. Qed.
